@@ -12,13 +12,18 @@ LEVEL_TEXT = ("a TLA+ contract of an aligned heap (an allocation answer is null,
               "(ignores alignment, overlaps, under-allocates, unreserved header) plus an unguarded element-count multiplication are refuted; "
               "the same contract, instantiated with 64-bit limb arithmetic whose laws TLC checks against integers, validates every recorded "
               "call of the real alignedMalloc / alignedFree (returned pointers, pattern read-back, leak detector, resident-set growth) for "
-              "both back ends; AlignedVector is a TLA+ sequence model whose state-graph histories are replayed on the real vectors for four "
-              "element sizes (contents, sizes, data() mod 64, length_error of allocate beyond max_size()) and whose recorded long random "
-              "executions are validated by TLC")
+              "both back ends; AlignedVector is a TLA+ sequence model (every way elements get copied: push_back of lvalue / rvalue / own "
+              "element, insert, resize, assign, reallocation, copy construction and assignment of whole vectors, swap) whose state-graph "
+              "histories are replayed on the real vectors for eight element types - sizes 1/4/8/12/64, a self-recursive node type and "
+              "std::vector<Any> (list-initialisation differs from copy), a lifetime-instrumented type (exactly-once construction / destruction "
+              "accounting) - comparing contents, sizes, data() mod 64, the accounting and length_error of allocate beyond max_size(), and "
+              "whose recorded long random executions are validated by TLC")
 LEVEL_NOTE = ("bounded: model address space 1..8 (thorough 1..12), sizes 0..3 (0..4), alignments 1/2/4, 3 live blocks (plus 1..6 / 2 blocks with "
               "stale content after free); size_t model of 8 bits for the overflow guard; vectors of <= 3 elements over 2 (thorough 3) values for "
               "the model, over 1 value + the default for exhaustive histories; real executions: sizes {0,1,7,8,63,64,65,4095,4096,4097,2^20} and "
-              "5 huge sizes x the 13 alignments 1..4096, <= 26 live blocks, seeded random; vectors up to ~150 elements of 1/4/12/64 bytes. "
+              "5 huge sizes x the 13 alignments 1..4096, <= 26 live blocks, seeded random; vectors up to ~150 elements of char, int, double (incl. -0.0), "
+              "12- and 64-byte structs, a self-recursive node, std::vector<Any>, a lifetime-instrumented type (quick: all on the ASan build, a "
+              "subset on the other two). "
               "Back ends: TBB scalable allocator (not interposable: no sanitizer inside it, an under-allocation there is only visible as a "
               "corrupted neighbour), _mm_malloc -> glibc, _mm_malloc -> ASan allocator (ASan/UBSan/LSan observe overruns and unreleased blocks "
               "there).  Allocator internals are observed, not modelled.  'Released' is observed as: no unreachable freed block (LSan, ASan "
@@ -35,8 +40,15 @@ SPEC_CON = os.path.join(VERIF, "spec", "containers")
 SIZES = [0, 1, 7, 8, 63, 64, 65, 4095, 4096, 4097, 1 << 20]
 ALIGNS = [1, 2, 4, 8, 16, 32, 64, 128, 256, 512, 1024, 2048, 4096]
 HUGE = [(1 << 64) - 1, (1 << 64) - 4096, 1 << 63, (1 << 62) + 1, 1 << 48]
-VARIANTS = ["c1", "i4", "s12", "s64"]
-VEC_MUT = {"PushBack", "PopBack", "Resize", "ResizeVal", "Assign", "AssignFrom", "Swap", "Clear", "Insert"}
+# element types of the vector part -> which instance of AlignedVec describes them (byte: sizeof(T) = 1, no request exceeds
+# max_size(); life: the type reports its construction / destruction accounting)
+VARIANTS = {"c1": "byte", "i4": "plain", "f8": "plain", "s12": "plain", "s64": "plain", "nest": "plain", "vany": "plain", "trk": "life"}
+GEN_CFG = {"plain": "AlignedVecGen.cfg", "byte": "AlignedVecGen_byte.cfg", "life": "AlignedVecGen_life.cfg"}
+TRACE_CFG = {"plain": "AlignedVecTrace.cfg", "byte": "AlignedVecTrace_byte.cfg", "life": "AlignedVecTrace_life.cfg"}
+VEC_MUT = {"PushBack", "PushBackRv", "PushBackOwn", "PopBack", "Resize", "ResizeVal", "Assign", "AssignFrom", "CopyCtor", "Swap", "Clear",
+           "Insert", "InsertMid"}
+VEC_ACTIONS = ["PushBack", "PushBackRv", "PushBackOwn", "PopBack", "Resize", "ResizeVal", "Reserve", "ShrinkToFit", "Assign", "AssignFrom",
+               "CopyCtor", "Swap", "Clear", "Insert", "InsertMid", "Allocate"]
 
 ASAN_ENV = {"ASAN_OPTIONS": "detect_leaks=1:leak_check_at_exit=0:abort_on_error=0:exitcode=97:allocator_may_return_null=1:"
                             "detect_stack_use_after_return=0"}
@@ -417,17 +429,21 @@ def rand_vec_actions(rnd, n, byte_sized):
         x = rnd.random()
         i = rnd.randint(1, 2)
         v = rnd.randint(1, 9)
-        if x < 0.34: a = act("PushBack", i=i, x=v)
-        elif x < 0.38: a = act("PopBack", i=i)                       # replaced below when the vector may be empty
-        elif x < 0.48: a = act("Resize", i=i, n=rnd.choice([0, 1, 3, 8, 17, 33, 64, 90]))
-        elif x < 0.54: a = act("ResizeVal", i=i, n=rnd.choice([0, 2, 9, 31, 65]), x=v)
-        elif x < 0.62: a = act("Reserve", i=i, n=rnd.choice([0, 1, 16, 100, 257]))
-        elif x < 0.70: a = act("ShrinkToFit", i=i)
-        elif x < 0.75: a = act("Assign", i=i, n=rnd.choice([0, 1, 5, 40, 70]), x=v)
-        elif x < 0.80: a = act("AssignFrom", i=i)
-        elif x < 0.86: a = {"a": "Swap", "arg": []}
-        elif x < 0.88: a = act("Clear", i=i)
-        elif x < 0.95: a = act("Insert", i=i, pos=0, x=v)             # position 0 is always legal
+        if x < 0.20: a = act("PushBack", i=i, x=v)
+        elif x < 0.30: a = act("PushBackRv", i=i, x=v)
+        elif x < 0.34: a = act("PushBackOwn", i=i)                   # guarded below: needs a non-empty vector
+        elif x < 0.38: a = act("PopBack", i=i)                       # guarded below: needs a non-empty vector
+        elif x < 0.47: a = act("Resize", i=i, n=rnd.choice([0, 1, 3, 8, 17, 33, 64, 90]))
+        elif x < 0.53: a = act("ResizeVal", i=i, n=rnd.choice([0, 2, 9, 31, 65]), x=v)
+        elif x < 0.60: a = act("Reserve", i=i, n=rnd.choice([0, 1, 16, 100, 257]))
+        elif x < 0.67: a = act("ShrinkToFit", i=i)
+        elif x < 0.71: a = act("Assign", i=i, n=rnd.choice([0, 1, 5, 40, 70]), x=v)
+        elif x < 0.75: a = act("AssignFrom", i=i)
+        elif x < 0.79: a = act("CopyCtor", i=i)
+        elif x < 0.84: a = {"a": "Swap", "arg": []}
+        elif x < 0.86: a = act("Clear", i=i)
+        elif x < 0.89: a = act("Insert", i=i, pos=0, x=v)             # position 0 is always legal
+        elif x < 0.95: a = act("InsertMid", i=i, x=v)
         else:
             rel = rnd.choice(["abs", "abs", "max", "ovf"])
             if rel == "abs": d = rnd.choice([0, 1, 5, 1000])
@@ -437,10 +453,10 @@ def rand_vec_actions(rnd, n, byte_sized):
                 rel = "max"
             a = act("Allocate", rel=rel, d=d)
         acts.append(a)
-    # pop_back on an empty vector is undefined behaviour: guard every PopBack with a PushBack on the same vector
+    # pop_back / v[0] on an empty vector is undefined behaviour: guard them with a PushBack on the same vector
     out = []
     for a in acts:
-        if a["a"] == "PopBack":
+        if a["a"] in ("PopBack", "PushBackOwn"):
             out.append(act("PushBack", i=a["arg"]["i"], x=7))
         out.append(a)
     return out
@@ -465,46 +481,48 @@ def vec_stats(execs):
 def vec_gen_start(chk, pool, quick):
     budget = 6000 if quick else 60000
     gf = {}
-    for byte_sized, cfg in ((False, "AlignedVecGen.cfg"), (True, "AlignedVecGen_byte.cfg")):
-        gf[byte_sized] = pool.submit(adtcheck.gen_histories, chk, SPEC_CON, "AlignedVec", cfg, budget, 6, walks=600 if quick else 6000, walk_len=40,
-                                     seed=chk.seed + (1 if byte_sized else 0), mutators=VEC_MUT, tag="c14-vec-" + cfg[:-4])
+    for k, (kind, cfg) in enumerate(sorted(GEN_CFG.items())):
+        gf[kind] = pool.submit(adtcheck.gen_histories, chk, SPEC_CON, "AlignedVec", cfg, budget, 6, walks=600 if quick else 6000, walk_len=40,
+                               seed=chk.seed + k, mutators=VEC_MUT, tag="c14-vec-" + cfg[:-4])
     return gf
 
 
 def vec_part(chk, pool, quick, rnd, exes, gf):
     gens = {}
-    for byte_sized in (False, True):
-        hs, info, ag = gf[byte_sized].result()
-        gens[byte_sized] = hs
-        chk.cov["generation_AlignedVec" + ("_byte" if byte_sized else "")] = info
+    for kind in sorted(GEN_CFG):
+        hs, info, ag = gf[kind].result()
+        gens[kind] = hs
+        chk.cov["generation_AlignedVec_" + kind] = info
         chk.count_actions(hs)
-    chk.require_actions(["PushBack", "PopBack", "Resize", "ResizeVal", "Reserve", "ShrinkToFit", "Assign", "AssignFrom", "Swap", "Clear", "Insert", "Allocate"])
-    chk.add_sample({"kind": "history", "object": "AlignedVector", "steps": gens[False][len(gens[False]) // 2]})
+    chk.require_actions(VEC_ACTIONS)
+    chk.add_sample({"kind": "history", "object": "AlignedVector", "steps": gens["life"][len(gens["life"]) // 2]})
     nexec = 6 if quick else 40
     combos = [(lab, var) for lab in ("Internal+asan", "TBB", "Internal") for var in VARIANTS]
-    if quick:     # the plain _mm_malloc build adds only the glibc alignment path to what the ASan build shows for the vector part: two variants
-        combos = [c for c in combos if c[0] != "Internal" or c[1] in ("c1", "s12")]
+    if quick:
+        # what an element type adds is independent of the back end, what a back end adds is the alignment of its blocks:
+        # every type on the instrumented build, the non-trivial ones and two sizes on TBB, two sizes on plain _mm_malloc
+        keep = {"Internal+asan": set(VARIANTS), "TBB": {"c1", "s64", "nest", "trk"}, "Internal": {"c1", "s12"}}
+        combos = [c for c in combos if c[1] in keep[c[0]]]
     envs = {lab: env for lab, _, _, env in backends(chk)}
     moved_total = 0
     jobs = []
 
     def drive(lab, var, executions):
         """external processes only: the driver follows the TLC histories and performs the random executions"""
-        byte_sized = var == "c1"
         tag = "c14-vec-%s-%s" % (var, lab.replace("+", "-"))
         meta = {"world": "vec", "variant": var}
-        rr = adt.run_driver(exes[lab], gens[byte_sized], tag, isolate=500, meta=meta, env=envs[lab], timeout=3000,
+        rr = adt.run_driver(exes[lab], gens[VARIANTS[var]], tag, isolate=500, meta=meta, env=envs[lab], timeout=3000,
                             extra_args=["--timeout-ms", DRIVER_TIMEOUT_MS])
         rec = record(exes[lab], executions, tag, meta, envs[lab])
         return rr, rec
 
     started = []
     for lab, var in combos:
-        executions = [rand_vec_actions(rnd, 250, var == "c1") for _ in range(nexec)]
+        executions = [rand_vec_actions(rnd, 250, VARIANTS[var] == "byte") for _ in range(nexec)]
         started.append((lab, var, executions, pool.submit(drive, lab, var, executions)))
     for lab, var, executions, fut in started:
-        byte_sized = var == "c1"
-        hs = gens[byte_sized]
+        byte_sized = VARIANTS[var] == "byte"
+        hs = gens[VARIANTS[var]]
         prefix = "AlignedVector<%s>[%s]" % (var, lab)
         tag = "c14-vec-%s-%s" % (var, lab.replace("+", "-"))
         meta = {"world": "vec", "variant": var}
@@ -516,7 +534,7 @@ def vec_part(chk, pool, quick, rnd, exes, gf):
         st = vec_stats(execs)
         moved_total += st["storage_moved"]
         chk.cov.setdefault("vector", {})[prefix] = st
-        jobs.append(validate_start(pool, SPEC_CON, "AlignedVecTrace", "AlignedVecTrace_byte.cfg" if byte_sized else "AlignedVecTrace.cfg",
+        jobs.append(validate_start(pool, SPEC_CON, "AlignedVecTrace", TRACE_CFG[VARIANTS[var]],
                                    executions, execs, tag, prefix, dict(meta, label=lab), vec_cls))
         chk.cov["evaluations"] += len(executions)
         beyond = sum(1 for e in executions for a in e if a["a"] == "Allocate" and a["arg"]["rel"] in ("max", "ovf") and a["arg"]["d"] > 0)
